@@ -207,6 +207,8 @@ FN('try_write_prelude_part', props=['C02', 'C01', 'C16'], ret='r',
        ('C02.maximal', '(final(state).phase is SendLine || final(state).phase is SendHeaders) && !r ==> final(w).out().len() + next_line(request, final(state).phase).len() > final(w).cap()'),
        ('aux.try_write_prelude_part.again', 'r ==> old(state).phase is SendLine && final(state).phase == Phase::SendHeaders(0) && final(w).out().len() > old(w).out().len()'),
        ('aux.try_write_prelude_part.stuck', '!r && final(w).out().len() == old(w).out().len() ==> final(state).phase == old(state).phase'),
+       ('C02.progress_iff_next_line_fits', '(old(state).phase is SendLine || old(state).phase is SendHeaders) ==> (final(w).out().len() > old(w).out().len() <==> old(w).out().len() + next_line(request, old(state).phase).len() <= old(w).cap())'),
+       ('C02.complete_head_emits_nothing', '!(old(state).phase is SendLine || old(state).phase is SendHeaders) ==> !r && final(w).out() == old(w).out() && final(state).phase == old(state).phase'),
    ],
    after=[('let skipped = all.skip(*index);', '''let ghost i0 = *index as int; let ghost out0 = w.out();
             proof {
@@ -231,8 +233,62 @@ FN('try_write_prelude_part', props=['C02', 'C01', 'C16'], ret='r',
                 let n = request.eff().len() as int;
                 lemma_header_lines_split(request.eff(), i0, i0 + k, n);
                 assert(w.out().subrange(out0.len() as int, w.out().len() as int) =~= header_lines(request.eff(), i0, i0 + k));
+                if k >= 1 {
+                    lemma_header_lines_split(request.eff(), i0, i0 + 1, i0 + k);
+                    assert(header_lines(request.eff(), i0, i0 + 1) =~= header_line(request.eff()[i0], i0 + 1 == n)) by { reveal_with_fuel(header_lines, 2); }
+                }
             }'''),
    ],
    before=[('let success = do_write_send_line(', 'let ghost out0 = w.out();'),
            ('if success {\n                state.phase = Phase::SendHeaders(0);', '''proof { if success { assert(w.out().subrange(out0.len() as int, w.out().len() as int) =~= request_line(request)); } else { assert(w.out().subrange(out0.len() as int, w.out().len() as int) =~= Seq::<u8>::empty()); } }''')],
    )
+
+FN('try_write_prelude', props=['C02', 'C01', 'C16', 'C17'], ret='r',
+   requires=[
+       ('aux.try_write_prelude.wf', 'old(w).wf()'),
+       ('aux.try_write_prelude.sending', 'old(state).phase is SendLine || old(state).phase is SendHeaders || old(state).phase is SendBody'),
+       ('C02.quantifier_at_least_one_header', 'phase_ok(request, old(state).phase)'),
+   ],
+   ensures=[
+       ('aux.try_write_prelude.frame', '''old(w).same_buffer(final(w)) && old(w).out().is_prefix_of(final(w).out()) && final(state).writer == old(state).writer && final(state).reader == old(state).reader
+            && final(state).skip_method_body_check == old(state).skip_method_body_check && final(state).stop_on_chunk_boundary == old(state).stop_on_chunk_boundary'''),
+       ('C02.whole_lines', 'head_step(request, old(state).phase, final(state).phase, final(w).out().subrange(old(w).out().len() as int, final(w).out().len() as int))'),
+       ('C02.maximal', '(final(state).phase is SendLine || final(state).phase is SendHeaders) ==> final(w).out().len() + next_line(request, final(state).phase).len() > final(w).cap()'),
+       ('C02.overflow_iff_nothing_fits', '''({
+            let prelude0 = old(state).phase is SendLine || old(state).phase is SendHeaders;
+            let stuck = prelude0 && old(w).out().len() + next_line(request, old(state).phase).len() > old(w).cap();
+            if stuck { r == Err::<(), Error>(Error::OutputOverflow) && final(w).out() == old(w).out() && final(state).phase == old(state).phase } else { r is Ok }
+        })'''),
+       ('C02.complete_head_emits_nothing', 'old(state).phase is SendBody ==> r is Ok && final(w).out() == old(w).out() && final(state).phase == old(state).phase'),
+   ],
+   loops={1: {'kw': 'loop',
+              'before': 'let ghost p0 = state.phase; let ghost out0 = w.out(); let ghost mut rounds: nat = 0;',
+              'invariant': [
+                  ('aux.try_write_prelude.loop.frame', '''old(w).same_buffer(w) && w.wf() && out0 == old(w).out() && out0.is_prefix_of(w.out()) && at_start == out0.len() && p0 == old(state).phase
+                        && state.writer == old(state).writer && state.reader == old(state).reader && state.skip_method_body_check == old(state).skip_method_body_check && state.stop_on_chunk_boundary == old(state).stop_on_chunk_boundary'''),
+                  ('aux.try_write_prelude.loop.sending', 'p0 is SendLine || p0 is SendHeaders || p0 is SendBody'),
+                  ('aux.try_write_prelude.loop.step', 'head_step(request, p0, state.phase, w.out().subrange(out0.len() as int, w.out().len() as int))'),
+                  ('aux.try_write_prelude.loop.rounds', 'rounds <= 1 && (rounds == 0 ==> state.phase == p0 && w.out() == out0) && (rounds == 1 ==> p0 is SendLine && state.phase == Phase::SendHeaders(0) && w.out().len() > out0.len() && out0.len() + next_line(request, p0).len() <= w.cap())'),
+              ],
+              'decreases': '1 - rounds'}},
+   before=[('if try_write_prelude_part(request, state, w) {', 'let ghost pm = state.phase; let ghost outm = w.out();'),
+           ('continue;', '''proof {
+                rounds = rounds + 1;
+                lemma_head_step_trans(request, p0, pm, state.phase, out0, outm, w.out());
+            }'''),
+           ('let written = w.len() - at_start;', 'proof { lemma_head_step_trans(request, p0, pm, state.phase, out0, outm, w.out()); }'),
+   ],
+   )
+
+PROOF('lemma_head_step_trans', ['C02', 'C01'], '''
+/// two consecutive steps of the head writer compose (what makes any buffer schedule emit the same head)
+pub proof fn lemma_head_step_trans<B>(req: &AmendedRequest<B>, p0: Phase, p1: Phase, p2: Phase, o0: Seq<u8>, o1: Seq<u8>, o2: Seq<u8>)
+    requires o0.is_prefix_of(o1), o1.is_prefix_of(o2),
+        head_step(req, p0, p1, o1.subrange(o0.len() as int, o1.len() as int)),
+        head_step(req, p1, p2, o2.subrange(o1.len() as int, o2.len() as int)),
+    ensures head_step(req, p0, p2, o2.subrange(o0.len() as int, o2.len() as int)), o0.is_prefix_of(o2)
+{
+    assert(o2.subrange(o0.len() as int, o2.len() as int) =~= o1.subrange(o0.len() as int, o1.len() as int) + o2.subrange(o1.len() as int, o2.len() as int));
+    assert(head_from(req, p0) =~= o2.subrange(o0.len() as int, o2.len() as int) + head_from(req, p2));
+}
+''')
